@@ -13,8 +13,8 @@ def run_shared(prop, invs, tier, seed, level_note, with_d=False):
     if with_d:
         # the swallowed-parse-error kind (known finding) is explored for C05 only
         scs_d, gen_d = pipe.generate(tier, "Pipeline_genD.cfg")
-        scs_d = [s for s in scs_d if any(r["fault"] == "D" for r in s["roots"])]
-        sel = sel + pipe.select(scs_d, tier, seed, n_quick=60)
+        scs_d = [s for s in scs_d if any(r["fault"] in ("D", "H") for r in s["roots"])]
+        sel = sel + pipe.select(scs_d, tier, seed, n_quick=90)
     obs = pipe.run_scenarios(sel, trace=True)
     mismatched = 0
     distinct = set()
